@@ -1,7 +1,7 @@
 #!/bin/sh
 # usage: seedimport.sh <Cxx> <name>  : copies patch.diff, demo and NOTES.md from /tmp/seed_<Cxx> into /verif/seeded/<name>/
 set -e
-P=$1; N=$2; S=/tmp/seed_$P; D=/verif/seeded/$N
+P=$1; N=$2; S=${3:-/tmp/seed_$P}; D=/verif/seeded/$N
 mkdir -p $D
 cp $S/patch.diff $D/patch.diff
 DEMO=$(cd $S && git status --porcelain | grep -o '[^ ]*demo_test.go' | head -1)
